@@ -41,15 +41,15 @@ CLAIMED = {
     level_text="24 decoder entry points are driven with well-formed packets whose length-like fields (IHL, total length, header-extension length, option length, hardware length, data offset, source/group counts, aux length, DHCP/LLDP lengths) are overridden from boundary and wrap-around sets, truncated, byte-mutated, amplified to jumbo size, plus raw strings; the sweep enumerates every truncation, every 0x00/0xff byte, all 256 values of each one-byte slot and k*64 / k*16384 values of each two-byte slot on sample packets. Oracle: no panic, return within 20 s, < 1 GiB heap growth, allocation <= 1 KiB/byte + 4 MiB.",
     level_note="Sampling; allocation volume as proxy for proportional work; inputs <= 9216 bytes."),
  "C07": dict(
-    technique="fuzzing + property-based testing: rapid-driven structure-aware hostile generators over conformant seed frames, exhaustive truncation/byte sweeps, Go native coverage-guided fuzzing (thorough), with a totality monitor (panic / hang / heap / allocation envelope) as oracle",
-    level_text="Conformant frames of every kind from the independent encoder are mutated field-aware (structural slots incl. the carried packet's length fields, boundary values, adjacent pairs), byte-wise, spliced, and amplified to the 64 KiB frame limit; every truncation offset and single-byte 0x00/0xff overwrite of seed frames is enumerated; thorough adds 240 s of native coverage-guided fuzzing. Each input must give (message|error), no panic, return within 20 s, < 1 GiB heap growth and allocation within 1 KiB/byte + 4 MiB.",
+    technique="fuzzing + property-based testing: rapid-driven structure-aware hostile generators over conformant seed frames, exhaustive truncation/byte sweeps, an enumerating sweep of every 16-bit length slot x boundary and wrap-to-zero values, a live-stream script with rejected frames under the race detector, Go native coverage-guided fuzzing (thorough), with a totality monitor (panic / hang / heap / allocation envelope) as oracle",
+    level_text="Conformant frames of every kind from the independent encoder are mutated field-aware (structural slots incl. the carried packet's length fields, boundary values, adjacent pairs), byte-wise, spliced, and amplified to the 64 KiB frame limit; every truncation offset and single-byte 0x00/0xff overwrite of seed frames is enumerated; thorough adds 240 s of native coverage-guided fuzzing. Per small frame (half of them built around each action kind in turn) every 16-bit length field is set to every boundary value incl. the values that wrap a 16-bit sum over the container to 0/4/8/16. A stream fed conformant frames interleaved with rejected ones (unknown types, cut frames, undecodable fields, unknown Nicira subtypes) must keep delivering. Every returned error is formatted. Each input must give (message|error), no panic, return within 20 s, < 1 GiB heap growth and allocation within 1 KiB/byte + 4 MiB.",
     level_note="Totality can only be sampled; allocation volume is a proxy for proportional work. A regression corpus of every input that once crashed/hung Parse is replayed at the start of every run."),
  "C14": dict(
     technique="property-based concurrency testing: generated batches run sequentially then concurrently (differential), xid distinctness over sets, Go race detector; schedules sampled",
     level_text="Rounds of 2..64 goroutines draw ids through the shared generator, own generators and message constructors (counter pre-set near 2^32 through the hook in a third of the rounds): all ids pairwise distinct, per-goroutine monotone. Batches of generated build/encode/parse/re-encode programs (rapid.Custom evaluated by seed) must give concurrently exactly the bytes and deep dumps they give sequentially. Everything also runs under -race; a report is a violation.",
     level_note="The Go scheduler is not controllable: interleavings are sampled (GOMAXPROCS varied, barrier start, yields), not enumerated; overlap is measured and reported."),
  "C15": dict(
-    technique="exhaustive enumeration (all registered names x mask x spelling; header words, all 2^32 in thorough) + rapid lookup/mutate/lookup histories against an independent width table + race detector on concurrent lookups",
+    technique="exhaustive enumeration (all registered names x mask x spelling; header words, all 2^32 in thorough) + rapid lookup/mutate/lookup histories against an independent width table + header word of complete fields vs their encoding + concurrent lookups with value checks (race detector and plain build)",
     level_text="Every registered name (obtained through the verif hook) x mask on/off x three spellings is compared with a width table transcribed from OF1.3.5 and OVS meta-flow.h; pack/unpack of header words is enumerated (16 classes x 2^16 + all classes x 10 low halves in quick, all 2^32 words in thorough); independence of results is checked by generated lookup/modify/lookup histories, by the stored registry entries afterwards, and concurrently under -race.",
     level_note="Trusts my transcription of the width table (DESIGN.md Appendix A.3); concurrency is sampled (Go scheduler not controllable), the race detector flags unsynchronised access on any executed schedule."),
  "C17": dict(
@@ -69,13 +69,13 @@ CLAIMED = {
     level_text="Every generated message, stand-alone element and builder history is encoded by the library and walked by an independent strict decoder written from OF1.3.5 / nicira-ext.h / meta-flow.h / EXT-230 that advances only by declared lengths and rejects wrong lengths, missing alignment, non-zero padding and unknown codes.",
     level_note="The wire model is my transcription of the specifications (DESIGN.md Appendix A); it is self-tested (Decode(Encode(t))==t) and must not import the library."),
  "C03": dict(
-    technique="property-based testing (rapid), dual construction: library bytes decoded by the independent wire model must equal the tree the constructor arguments denote; builder-history state machine; coverage-guided rapid.MakeFuzz driver in thorough",
-    level_text="Each case draws constructor arguments once and yields both the library value and the specification tree they denote; the independent decoder must recover exactly that tree (values, optional parts, order) from the library's bytes.",
+    technique="property-based testing (rapid), dual construction: library bytes decoded by the independent wire model must equal the tree the constructor arguments denote; builder-history state machine; messages built from decoded parts; table of value constants against the specifications; coverage-guided rapid.MakeFuzz driver in thorough",
+    level_text="Each case draws constructor arguments once and yields both the library value and the specification tree they denote; the independent decoder must recover exactly that tree (values, optional parts, order) from the library's bytes. Includes messages whose match, instructions or actions were decoded from a flow-stats reply and handed to a fresh message through the adders, matches built in place next to a second message, and every exported value constant a controller writes (ports, commands, flag bits) against the number the specifications assign.",
     level_note="Trusts the wire model and the generator's statement of what each constructor denotes; two OF1.0-layout request bodies are listed known findings."),
  "C04": dict(
-    technique="property-based testing (rapid), differential against an independent encoder: conformant switch-originated frames from the wire model (incl. wire-only ONF experimenter OXMs and standard actions) are parsed by the library and field-wise extracted back into the model's tree; coverage-guided rapid.MakeFuzz driver in thorough",
+    technique="property-based testing (rapid), differential against an independent encoder: conformant switch-originated frames from the wire model (incl. wire-only ONF experimenter OXMs, NXM fields, instructions and standard actions, packet-ins cut by the switch) are parsed by the library and field-wise extracted back into the model's tree; table of the constants a controller compares with; coverage-guided rapid.MakeFuzz driver in thorough",
     level_text="Specification-conformant frames of every switch-originated kind the library has a receiver for are produced by the independent encoder, parsed through openflow13.Parse, and a per-kind extractor over exported fields must rebuild the generated tree exactly (ports, stats records, match fields, instructions, actions, packet payload).",
-    level_note="Trusts the wire model's encoder and the extractors in harness/checks/extract_test.go; OF1.0-layout stats replies and the echo payload are listed known findings."),
+    level_note="Trusts the wire model's encoder and the extractors in harness/checks/extract_test.go; OF1.0-layout stats replies, the echo payload, bare-header standard actions and packet-ins whose data ends inside the packet headers are listed known findings."),
  "C16": dict(
     technique="exhaustive enumeration of the finite domain against an arithmetic reference (property-based oracle, no sampling)",
     level_text="All 528 bit ranges and all 65,536 offset/width pairs are enumerated and compared with a bit-by-bit reference; within the stated domain this is complete.",
